@@ -118,6 +118,8 @@ def run(ck: Check, prog: Program) -> None:
         _ctx_rules(ck, prog, b)
     _bind_strict(ck, prog)
     # ---- RESULT-PASSTHRU ------------------------------------------------------------------------
+    from .common import dispatcher_program
+    prog = dispatcher_program(prog)
     roles = dispatchers(prog)
     interp = c01.make_interp(prog, roles)
     for r in roles:
@@ -126,46 +128,40 @@ def run(ck: Check, prog: Program) -> None:
         problems = []
         # H3: returns the invocation result unchanged
         mf, _ = method_call_facts(prog, interp, r)
+        from ..flow import Flow
         cfg = CFG(f3, prog)
-        inv_vars: Set[str] = set()
+        fl3 = Flow(cfg)
         bound_vars: Set[str] = set()
         for st in walk_own(f3.node):
             if isinstance(st, ast.Assign) and isinstance(strip_await(st.value), ast.Call) and \
                     isinstance(strip_await(st.value).func, ast.Attribute) and strip_await(st.value).func.attr == 'bind':
                 bound_vars |= {t.id for t in st.targets if isinstance(t, ast.Name)}
-        for st in walk_own(f3.node):
-            if isinstance(st, ast.Assign):
-                v = strip_await(st.value)
-                if isinstance(v, ast.Call) and isinstance(v.func, ast.Name) and v.func.id in bound_vars:
-                    inv_vars |= {t.id for t in st.targets if isinstance(t, ast.Name)}
-                elif isinstance(v, ast.Name) and v.id in inv_vars:       # result = await result
-                    inv_vars |= {t.id for t in st.targets if isinstance(t, ast.Name)}
-                elif any(isinstance(t, ast.Name) and t.id in inv_vars for t in st.targets):
-                    problems.append((st.lineno, f'`{norm(st)}` post-processes the method result'))
-        for st in walk_own(f3.node):
-            if isinstance(st, ast.Return) and st.value is not None:
-                v = strip_await(st.value)
-                direct = isinstance(v, ast.Call) and isinstance(v.func, ast.Name) and v.func.id in bound_vars
-                if not direct and not (isinstance(v, ast.Name) and v.id in inv_vars):
-                    problems.append((st.lineno, f'`{norm(st)}` does not return the value of the invoked method unchanged'))
-        # H2: result var from H3 call goes to Response(result=)
-        res_vars: Set[str] = set()
-        for st in walk_own(f2.node):
-            if isinstance(st, ast.Assign):
-                v = strip_await(st.value)
-                if isinstance(v, ast.Call) and dotted(v.func) == f'self.{f3.name}':
-                    res_vars |= {t.id for t in st.targets if isinstance(t, ast.Name)}
-                    # SAME-ARGS: (request.method, request.params, context)
-                    req, ctx = f2.params[1].arg, f2.params[2].arg
-                    got = [dotted(a) for a in v.args]
-                    if got != [f'{req}.method', f'{req}.params', ctx]:
-                        problems.append((st.lineno, f'`{norm(v)}` does not hand the request\'s own method name, params and the context to the method handler'))
-                elif any(isinstance(t, ast.Name) and t.id in res_vars for t in st.targets):
-                    problems.append((st.lineno, f'`{norm(st)}` post-processes the method result'))
+        for n3 in cfg.stmt_nodes():
+            st = n3.ast
+            if n3.kind == 'stmt' and isinstance(st, ast.Return) and st.value is not None:
+                for al in fl3.alts(n3, st.value):
+                    v = strip_await(al.expr)
+                    if not (isinstance(v, ast.Call) and isinstance(v.func, ast.Name) and v.func.id in bound_vars and not v.args and not v.keywords):
+                        problems.append((st.lineno, f'`{norm(st)}` can return `{norm(al.expr)[:60]}`, which is not the value of the invoked method unchanged'))
+        # H2: the value handed to Response(result=…) is the return value of the method handler, through copies only
+        cfg2 = CFG(f2, prog)
+        fl2 = Flow(cfg2)
+        req, ctx = f2.params[1].arg, f2.params[2].arg
         for c in response_ctor_calls(prog, f2):
             rv = kwarg(c, 'result', 1)
-            if rv is None or dotted(rv) not in res_vars:
+            from ..util import stmt_node_of
+            cn = stmt_node_of(cfg2, c)
+            if rv is None or cn is None:
                 problems.append((c.lineno, f'`{norm(c)}` does not carry the method\'s return value as result'))
+                continue
+            for al in fl2.alts(cn, rv):
+                v = strip_await(al.expr)
+                if not (isinstance(v, ast.Call) and dotted(v.func) == f'self.{f3.name}'):
+                    problems.append((c.lineno, f'`{norm(c)}` carries `{norm(al.expr)[:60]}` as result, not the method\'s return value'))
+                    continue
+                got = [dotted(a) for a in v.args]
+                if got != [f'{req}.method', f'{req}.params', ctx]:
+                    problems.append((v.lineno, f'`{norm(v)}` does not hand the request\'s own method name, params and the context to the method handler'))
         ck.ob('RESULT-PASSTHRU', f'{r.cls.name}: the method\'s return value reaches Response(result=…) through copies only', not problems)
         for line, msg in problems:
             ck.finding('RESULT-PASSTHRU', f'{r.cls.qualname}.<rpc chain>', msg[:60], f2.module.rel, line, msg)
@@ -216,19 +212,21 @@ def _ctx_rules(ck: Check, prog: Program, b: FuncInfo) -> None:
         raise AnalysisError(f'{b.qualname}: no functools.partial call found (the prepared call is not recognised)')
     m_arg = dotted(vc.args[0]) if vc.args else None
     if not is_view:
+        from .c17 import exclude_expr
         ex = kwarg(vc, 'exclude', 2)
-        txt = norm(ex) if ex is not None else ''
-        ok = ex is not None and 'self.context' in txt
-        ck.ob('CTX-EXCLUDED', f'{short(b.qualname)}: the context name is excluded from client-bindable parameters', ok)
+        form = exclude_expr(vc, 2, prog, b)
+        ok = form == '{<method>.context} iff set'
+        ck.ob('CTX-EXCLUDED', f'{short(b.qualname)}: the context name is excluded from client-bindable parameters', ok, sample={'exclude': form})
         if not ok:
-            ck.finding('CTX-EXCLUDED', b.qualname, 'context parameter not excluded from binding', b.module.rel, vc.lineno,
-                       f'`{norm(vc)[:90]}` does not pass exclude=(self.context,): the client could supply or override the context parameter, '
-                       f'and a call that omits it would be refused')
-        if ok and isinstance(ex, ast.IfExp):
-            ckd = classify_cond(prog, b, ex.test)
-            if not (ckd.subject == 'self.context' and ckd.kind in ('truthy', 'is-none')):
+            if ex is None or 'self.context' not in norm(ex):
+                ck.finding('CTX-EXCLUDED', b.qualname, 'context parameter not excluded from binding', b.module.rel, vc.lineno,
+                           f'`{norm(vc)[:90]}` does not pass exclude=(self.context,): the client could supply or override the context parameter, '
+                           f'and a call that omits it would be refused')
+            else:
                 ck.finding('CTX-EXCLUDED', b.qualname, 'exclusion condition', b.module.rel, vc.lineno,
-                           f'exclude is conditional on `{norm(ex.test)}`, not on a context being configured')
+                           f'exclude is `{norm(ex)}`: it must be a one-element collection holding the context name when a context is configured '
+                           f'and an empty collection otherwise (a bare string makes the membership test a substring test: parameters whose names '
+                           f'are substrings of the context name are refused; an unconditional collection excludes a parameter literally named None)')
         # method validated and method called are the same object (every prepared call)
         bad_sig = [(pn, pc) for pn, pc in partials if (dotted(pc.args[0]) if pc.args else None) != m_arg or m_arg is None]
         ck.ob('SIG-SAME', f'{short(b.qualname)}: the validated callable is the callable that is invoked', not bad_sig)
